@@ -26,37 +26,43 @@ def handleRt (j : Json) : Except String Json := do
   let chosen ← (← arrOrEmpty j "chosen").mapM ofVar
   if !m.idsDistinct then
     return Json.mkObj [("unmodelled", Json.str "dup_ids")]
-  let hyp := Json.mkObj [
-    ("baseIdsNodup", Json.bool ((m.rels.map EP.baseId).eraseDups.length == m.rels.length)),
-    ("wf", Json.bool m.isWellFormed),
-    ("ivprop", Json.bool m.hasIVProperty)]
+  let reps : Reps := match m.representatives with | .ok r1 => r1 | _ => []
+  let repsOk : Bool := m.representatives matches .ok _
+  -- the named hypotheses of the theorems that mention the source only: evaluated on every case
+  let srcHyps : List (String × Json) := [
+      ("baseIdsNodup", Json.bool ((m.rels.map EP.baseId).eraseDups.length == m.rels.length)),
+      ("wf", Json.bool m.isWellFormed), ("ivprop", Json.bool m.hasIVProperty),
+      ("rolesOk", Json.bool (RolesOk m)), ("ivSorts", Json.bool (IVSorts m)),
+      ("rstrLinked", Json.bool (repsOk && RstrLinked m reps)),
+      ("noDescArg", Json.bool (NoDescArg m)),
+      ("handleSorts", Json.bool (HandleSorts m)), ("topOk", Json.bool (TopOk m)),
+      ("qeqOnly", Json.bool (QeqOnly m)),
+      ("argsLinked", Json.bool (repsOk && ArgsLinked m reps)),
+      ("noCargRole", Json.bool (NoCargRole m)), ("oneConstraint", Json.bool (OneConstraint m)),
+      ("noConstrainedLabel", Json.bool (NoConstrainedLabel m)), ("holesOnce", Json.bool (HolesOnce m)),
+      ("quantBody", Json.bool (QuantBody m)),
+      ("topRep", Json.bool (repsOk && TopRep m reps)),
+      ("scopesHeldSrc", Json.bool (repsOk && ScopesHeldSrc m reps)),
+      ("quantHeadSrc", Json.bool (repsOk && QuantHeadSrc m reps)),
+      ("topSelects", Json.bool (TopSelects m)), ("indexIV", Json.bool (IndexIV m)),
+      ("hconsUsed", Json.bool (HconsUsed m))]
   let d1 := fromMrs m
   match d1 with
-  | .error _ => pure (Json.mkObj [("d1", jExcept jDMRS d1), ("hyp", hyp)])
+  | .error _ => pure (Json.mkObj [("d1", jExcept jDMRS d1), ("hyp", Json.mkObj srcHyps)])
   | .ok d =>
     let m2 := fromDmrs chosen d
+    -- … and those stated on the DMRS of the first conversion
+    let hyps : List (String × Json) := srcHyps ++ [
+        ("scopesHeld", Json.bool (ScopesHeld m d)), ("quantHead", Json.bool (QuantHead m d))]
     match m2 with
-    | .error _ => pure (Json.mkObj [("d1", jExcept jDMRS d1), ("m2", jExcept jMRS m2), ("hyp", hyp)])
+    | .error _ =>
+      pure (Json.mkObj [("d1", jExcept jDMRS d1), ("m2", jExcept jMRS m2), ("hyp", Json.mkObj hyps)])
     | .ok mm =>
       let d2 : Json := if mm.idsDistinct then jExcept jDMRS (fromMrs mm) else jErr "unmodelled"
       let agree : Bool := match m.representatives, mm.representatives with
         | .ok r1, .ok r2 => repsPos m r1 == repsPos mm r2
         | _, _ => false
-      let rstr : Bool := match m.representatives with
-        | .ok r1 => RstrLinked m r1
-        | _ => false
-      let hyp2 := Json.mkObj [
-        ("baseIdsNodup", Json.bool ((m.rels.map EP.baseId).eraseDups.length == m.rels.length)),
-        ("wf", Json.bool m.isWellFormed), ("ivprop", Json.bool m.hasIVProperty),
-        ("rolesOk", Json.bool (RolesOk m)), ("ivSorts", Json.bool (IVSorts m)),
-        ("rstrLinked", Json.bool rstr), ("repsAgree", Json.bool agree),
-        ("scopesHeld", Json.bool (ScopesHeld m d)), ("noDescArg", Json.bool (NoDescArg m)),
-        ("handleSorts", Json.bool (HandleSorts m)), ("topOk", Json.bool (TopOk m)),
-        ("qeqOnly", Json.bool (QeqOnly m)),
-        ("argsLinked", Json.bool (match m.representatives with | .ok r1 => ArgsLinked m r1 | _ => false)),
-        ("noCargRole", Json.bool (NoCargRole m)), ("oneConstraint", Json.bool (OneConstraint m)),
-        ("noConstrainedLabel", Json.bool (NoConstrainedLabel m)), ("holesOnce", Json.bool (HolesOnce m)),
-        ("quantBody", Json.bool (QuantBody m)), ("quantHead", Json.bool (QuantHead m d))]
+      let hyp2 := Json.mkObj (hyps ++ [("repsAgree", Json.bool agree)])
       pure (Json.mkObj [("d1", jExcept jDMRS d1), ("m2", jExcept jMRS m2), ("d2", d2), ("hyp", hyp2)])
 
 /-- `{"op":"from_dmrs","d":dmrs,"chosen":[…]}` → `from_dmrs(d)` -/
